@@ -17,6 +17,7 @@ THEOREMS = [
     "Mro.mro_monotone", "Mro.duplicate_bases_reject", "Mro.reject_reports", "Mro.accept_no_report",
     "Mro.find_eq_lookup", "Mro.docsource_eq_getdoc", "Mro.report_iff_python_rejects",
     "Mro.pd_rejects_iff_cpython_rejects", "Mro.getdoc_is_not_the_mro_walk",
+    "Mro.pd_eq_cpython_generic", "Mro.mroEntries_eq_localBases", "Mro.pd_eq_cpython_genericOld_counterexample",
     "Mro.second_pass_canonical", "Mro.second_pass_trigger_independent", "Mro.second_pass_wrong_scope_counterexample",
 ]
 RULE = ("exhaustive: every hierarchy of n<=5 classes in which class i takes any ordered duplicate-free list of bases "
@@ -35,7 +36,8 @@ ASSUMPTIONS = [
     "the path check of init_finalbaseobjects are not modelled; the second pass of base resolution is modelled (Mro.secondPass) "
     "over the data the AST pass left behind and tied to the real _finalbaseobjects; the linearisation models take the resolved hierarchy",
     "generated classes are plain: object root, no metaclass, no __slots__, no builtin bases, so type() can only fail for MRO "
-    "reasons or duplicate bases; typing.Generic[T] appears only as the last base (where typing's __mro_entries__ keeps it)",
+    "reasons or duplicate bases; a subscripted base is always a typing generic alias (`C[T]` of a Generic class, or `Generic[T]` at any position), "
+    "so typing's __mro_entries__ is the filter modelled as PyMro.mroEntries",
     "the run-time docstring reference is attribute lookup along __mro__ (first later class defining the member with a "
     "docstring); inspect.getdoc itself looks the name up with getattr(base, name) per base and can differ — counted, not a failure",
     "a class whose ancestor Python refused to create does not exist at run time; the oracle says nothing about it "
@@ -460,8 +462,16 @@ def gen_cyclic(rng, nclasses: int, h=None, spread: bool = False) -> Dict[str, An
             elif j in imported[m]:
                 name = imported[m][j]
             else:
-                style = rng.choice([1, 1, 1, 2, 0, 3]) if spread else rng.randrange(4)
-                if style == 3 and modof[j] in modimp[m]:
+                style = rng.choice([1, 4, 4, 4, 0, 3]) if spread else rng.randrange(5)
+                via = [o for o in range(nmod) if o != m and o != modof[j]]
+                if style == 4 and via:
+                    # two hops: a third module re-imports the class under another name; the name as expanded in the
+                    # declaring module (pkg.mi.Via_j) is then no object's full name, only resolveName gets there
+                    mi = rng.choice(via)
+                    body[mi].append("from %s.m%d import C%d as Via_%d_%d\n" % (PKG, modof[j], j, j, c))
+                    body[m].append("from %s.m%d import Via_%d_%d as Base_%d\n" % (PKG, mi, j, c, j))
+                    name = "Base_%d" % j
+                elif style == 3 and modof[j] in modimp[m]:
                     name = "%s.C%d" % (modimp[m][modof[j]], j)      # attribute of the module imported at the top
                 elif style == 0:
                     body[m].append("from %s.m%d import C%d\n" % (PKG, modof[j], j))
@@ -735,7 +745,7 @@ def run(ctx: Ctx) -> None:
                 cprojects.append((gen_cyclic(ctx.rng, n, h=h, spread=(n <= 4 and ctx.rng.random() < 0.5)), 2 if n == 5 else 6))
     for _ in range(150 if ctx.quick else 1500):
         cprojects.append((gen_cyclic(ctx.rng, ctx.rng.randint(2, 8)), 6 if ctx.quick else 24))
-    for _ in range(120 if ctx.quick else 1500):
+    for _ in range(300 if ctx.quick else 2500):
         cprojects.append((gen_cyclic(ctx.rng, ctx.rng.randint(3, 4), spread=True), 8 if ctx.quick else 24))
     creq, cout, cpay = [], [], []
     for p, maxorders in cprojects:
